@@ -16,11 +16,11 @@ import (
 
 type Clause struct {
 	OnlyProp string // clause applies only when checking this property ("@C17 expr")
-	Label string
-	Text  string
-	Expr  ast.Expr
-	File  string
-	Line  int
+	Label    string
+	Text     string
+	Expr     ast.Expr
+	File     string
+	Line     int
 }
 
 type LoopSpec struct {
@@ -30,32 +30,33 @@ type LoopSpec struct {
 }
 
 type Contract struct {
-	Key        string // "pkgpath.(*T).Name" or "pkgpath.Name"
-	Pkg        string
-	Requires   []*Clause
-	Ensures    []*Clause
-	Modifies   []string // raw lvalue texts; "*" = anything
-	HasMod     bool
-	Loops      map[int]*LoopSpec
-	Props      []string
-	Assumed    bool   // external: never verified
-	Arith      string // "int" (default) | "bv"
-	Overflow   bool   // emit overflow obligations
-	Opaque     bool   // never inline even when loop-free
-	Inline     bool   // always inline (contract still verified on its own)
-	MayPanic   []string
-	NoSafety   bool // do not generate safe.* obligations (only post/frames)
-	Pure       bool
-	Fresh      bool // result is freshly allocated
-	Lemmas     []*Clause
-	File       string
-	Line       int
-	Unroll     map[int]int // loop ordinal -> constant bound to unroll
-	Ghost      []string
+	Key         string // "pkgpath.(*T).Name" or "pkgpath.Name"
+	Pkg         string
+	Requires    []*Clause
+	Ensures     []*Clause
+	Modifies    []string // raw lvalue texts; "*" = anything
+	HasMod      bool
+	Loops       map[int]*LoopSpec
+	Props       []string
+	Assumed     bool   // external: never verified
+	Arith       string // "int" (default) | "bv"
+	Overflow    bool   // emit overflow obligations
+	Opaque      bool   // never inline even when loop-free
+	Inline      bool   // always inline (contract still verified on its own)
+	MayPanic    []string
+	NoSafety    bool // do not generate safe.* obligations (only post/frames)
+	SafetyProps []string
+	Pure        bool
+	Fresh       bool // result is freshly allocated
+	Lemmas      []*Clause
+	File        string
+	Line        int
+	Unroll      map[int]int // loop ordinal -> constant bound to unroll
+	Ghost       []string
 	Exceptional []*Clause // onpanic ensures
 	Witnesses   []*Witness
 	Splits      [][]*Clause // case splits applied to every ensures clause (cartesian product)
-	PreCalls    []*DynCall // obligations at calls to a named static callee, evaluated in the caller's scope
+	PreCalls    []*DynCall  // obligations at calls to a named static callee, evaluated in the caller's scope
 	DynCalls    []*DynCall
 	Uses        []string // axioms assumed in this function
 	TrustFrame  bool     // the modifies clause is assumed, not checked (reported as an assumption)
@@ -87,13 +88,13 @@ type Define struct {
 }
 
 type ContractSet struct {
-	ByKey   map[string]*Contract
-	Order   []string
-	Files   []string
-	Defines map[string]*Define // "pkgpath.name"
-	Globals []*GlobalInv
-	Axioms  map[string]*GlobalInv // "pkgpath.name": assumed facts (never verified here; listed as assumptions)
-	GhostNames map[string]bool    // names used in ghost("name", ...) anywhere
+	ByKey      map[string]*Contract
+	Order      []string
+	Files      []string
+	Defines    map[string]*Define // "pkgpath.name"
+	Globals    []*GlobalInv
+	Axioms     map[string]*GlobalInv // "pkgpath.name": assumed facts (never verified here; listed as assumptions)
+	GhostNames map[string]bool       // names used in ghost("name", ...) anywhere
 }
 
 // GlobalInv: "//@ global label:: expr" - a Go expression over package-level variables that are never written
@@ -349,6 +350,9 @@ func (cs *ContractSet) parseFile(path, pkgPath string) error {
 		case "loop":
 			w2, r2 := splitWord(rest)
 			n, err := strconv.Atoi(w2)
+			if w2 == "*" {
+				n, err = 0, nil // "loop * invariant e": e is an invariant of every loop of the function
+			}
 			if err != nil {
 				return fmt.Errorf("%s:%d: loop ordinal: %v", path, ln, err)
 			}
@@ -366,6 +370,9 @@ func (cs *ContractSet) parseFile(path, pkgPath string) error {
 				}
 				if c.Label == "" {
 					c.Label = strconv.Itoa(len(ls.Invariants) + 1)
+					if n == 0 {
+						c.Label = "all" + c.Label
+					}
 				}
 				ls.Invariants = append(ls.Invariants, c)
 			case "decreases":
@@ -466,6 +473,10 @@ func (cs *ContractSet) parseFile(path, pkgPath string) error {
 			cur.Inline = true
 		case "nosafety":
 			cur.NoSafety = true
+		case "safety":
+			// "safety C01 C07": run-time-check obligations are generated only when checking one of these
+			// properties (under the function's other properties they are assumed: decided by those runs)
+			cur.SafetyProps = append(cur.SafetyProps, strings.Fields(rest)...)
 		case "fresh":
 			cur.Fresh = true
 		case "maypanic":
